@@ -14,12 +14,19 @@ import simnet
 from simnet import SimNet, Scheduler, Deadlock, PartyError
 import obs
 import common
+import comm_src
 
 LEVEL = 'proof'
-LEAN_MODULES = ['MpycV.Props.C19']
-LEAN_NAMESPACES = ['MpycV.C19']
+LEAN_MODULES = ['MpycV.Props.C19', 'MpycV.PropsGen.CommSrcTie']
+LEAN_NAMESPACES = ['MpycV.C19', 'MpycV.CommSrcTie']
 REQUIRED_THEOREMS = ['output_nonreceiver_silent', 'output_traffic_subset', 'transfer_nonreceiver_silent',
-                     'transfer_arcs_nonreceiver_silent']
+                     'transfer_arcs_nonreceiver_silent',
+                     # source tie (PropsGen/CommSrcTie.lean): routing generated from the current runtime.py = model
+                     'outSends_src_eq', 'outRecvs_src_eq', 'transferSends_src_eq', 'transferMySenders_src_eq',
+                     'transferMyReceivers_src_eq', 'arcsMySenders_src_eq', 'arcsMyReceivers_src_eq',
+                     'dictMySenders_src_eq', 'dictMyReceivers_src_eq', 'output_nonreceiver_silent_src',
+                     'transfer_nonreceiver_silent_src', 'transfer_arcs_nonreceiver_silent_src',
+                     'transfer_dict_nonreceiver_silent_src']
 RULE = ('scenario = (m in 2..7, t, PRSS on/off, schedule seed, secure type family, receiver subset R (all subsets for '
         'm <= 4 in thorough, random otherwise) or transfer graph, output threshold); distinct = scenario tuples; '
         'non-trivial = some party is a non-receiver and some message is on the wire')
@@ -27,6 +34,11 @@ ASSUMPTIONS = ['secure floats: the two dealings that reach non-receivers are fre
                'message origin is read from the calling protocol frame (harness/obs.py)']
 TYPES = ['secint', 'secfxp', 'secfld101', 'secfld256', 'secfld3', 'secgrp_sym', 'secgrp_qr', 'secflt', 'list_secint']
 
+
+
+def generate(ctx):
+    """source translator: routing expressions of the current mpyc/runtime.py -> lean/MpycV/Generated/CommSrc.lean"""
+    comm_src.generate(ctx)
 
 def mk_value(mpc, ty, pid):
     if ty == 'secint':
